@@ -150,13 +150,28 @@ pub fn group() -> Group {
                 prefix: vec![],
                 suffix: vec![],
                 alphabet: ws_alphabet(),
-                max_tokens: if mx == 65_536 { [4, 6] } else if main { [4, 5] } else { [3, 4] },
+                max_tokens: if mx == 65_536 { [4, 5] } else if main { [3, 5] } else { [3, 4] },
                 seeds: ws_seeds(server),
                 double: i == 4,
                 delivery: Delivery::Framed,
                 exec,
             });
         }
+    }
+    // longer strings over the core of the frame grammar, default limit
+    for server in [true, false] {
+        let exec: ExecFn = Arc::new(move |inp: &[u8], m: Mode| frame_exec(server, 65_536, inp, m));
+        targets.push(Target {
+            name: format!("ws:{}:max65536:deep", if server { "server" } else { "client" }),
+            prefix: vec![],
+            suffix: vec![],
+            alphabet: toks(&[b"\x81", b"\x82", b"\x88", b"\x00", b"\x7e", b"\x7f", b"\x85", b"\x05", b"hello", b"\xff\xff\xff\xff\xff\xff\xff\xff"]),
+            max_tokens: [4, 7],
+            seeds: vec![],
+            double: false,
+            delivery: Delivery::Framed,
+            exec,
+        });
     }
     // handshake: one hostile header value, the other headers valid
     for (slot, name) in ["upgrade", "connection", "sec-websocket-version", "sec-websocket-key", "sec-websocket-protocol"].iter().enumerate() {
